@@ -144,6 +144,9 @@ def rule_b(ctx):
     ctx.ob("queue-never-replaced-in-place", not ow,
            "no statement overwrites a live PriorityQueue / IndexedPriorityQueue as a whole (that would reset next_epoch and re-issue "
            "epochs / InsertKeys)", ow or writers)
+    esc = K.field_escapes(P, PQ + "PriorityQueue", "next_epoch") + K.field_escapes(P, IPQ + "IndexedPriorityQueue", "next_epoch")
+    ctx.ob("epoch-counter-not-borrowed-mutably", not esc,
+           "no &mut / raw pointer to next_epoch is ever taken (the two `+= 1` assignments are its only writers)", esc or writers)
     nb = ctx.body(PQ + "PriorityQueue::new")
     if nb:
         aggs = list(nb.aggregates(adt=PQ + "PriorityQueue"))
